@@ -329,3 +329,45 @@ _enumerated("verif.data.Data.get_axis_values+get_axis_size#BOUNDED:the-slices-of
             "around the 24 h boundaries, 3 locations two of which share a latitude and an elevation), process in UTC and PST8: time-derived "
             "dimensions = the distinct calendar buckets in ascending order, lead-time day = whole 24 h periods, location-like = one value per location in location order",
             _axis_values(), ["verif.data.Data.get_axis_values", "verif.data.Data.get_axis_size"])
+
+
+# ------------------------------------------------------------------ text / csv along the threshold-like axes: rows labelled by the thresholds as given
+def _threshold_tables():
+    def body():
+        cases = 0
+        for axis, head in ((verif.axis.Threshold(), "Threshold"), (verif.axis.Obs(), "Observed"), (verif.axis.Fcst(), "Forecasted")):
+            for bin_type, thresholds in (("above", [1.5, 2.5, 3.5]), ("above", [5.0, 1.0, 3.0]), ("below=", [2.0]), ("within", [0.0, 1.0, 4.0]), ("above=", [3.0, 3.0, 1.0]), ("above", None)):
+                for F in (1, 2):
+                    ivs = verif.util.get_intervals(bin_type, thresholds)
+                    vals = [[_np.array([10.0 * f + k + (1.0 / 3, 1.00000496, 2.5)[(f + k) % 3]]) if (f + k) % 4 != 3 else _np.array([_np.nan]) for k in range(len(ivs))] for f in range(F)]
+                    for kind in ("csv", "text"):
+                        pl = verif.output.Standard(TableMetric(vals, []))
+                        pl.thresholds, pl.bin_type, pl.axis, pl.filename = thresholds, bin_type, axis, None
+                        data = TableData([0], ["n%d" % f for f in range(F)])
+                        buf = io.StringIO()
+                        cases += 1
+                        try:
+                            with contextlib.redirect_stdout(buf):
+                                getattr(pl, kind)(data)
+                        except Exception as e:
+                            return cases, {"axis": axis.name(), "type": kind, "thresholds": thresholds, "raised": "%s: %s" % (type(e).__name__, e)}
+                        lines = buf.getvalue().strip().split("\n")
+                        rows = [[c.strip() for c in (l.split(",") if kind == "csv" else l.split("|"))] for l in lines]
+                        rows = [[c for c in r if c != ""] for r in rows]
+                        fmt = "%g" if kind == "csv" else "%.4g"
+                        want = []
+                        for k in range(len(ivs)):
+                            # one row per interval in the order given; the leading field is the threshold the user wrote at that position
+                            lab = "All" if thresholds is None else (str(thresholds[k]) if kind == "csv" else "%g" % thresholds[k])
+                            want.append([lab] + [fmt % vals[f][k][0] for f in range(F)])
+                        head_want = [head] + ["n%d" % f for f in range(F)]
+                        if rows[1:] != want or rows[0] != head_want:
+                            return cases, {"axis": axis.name(), "type": kind, "bin_type": bin_type, "thresholds": thresholds, "F": F, "printed": lines, "want-rows": want, "want-header": head_want}
+        return cases, None
+    return body
+
+
+_enumerated("verif.output.Output.csv+text#BOUNDED:threshold-like-axes,rows-labelled-by-the-thresholds-as-given", ("C12",),
+            "axes threshold/obs/fcst x 6 bin-type/threshold lists (ascending, unordered, single, repeated, none given) x 1..2 inputs x csv/text, real _get_x_y with a stub metric: "
+            "header and every printed row against the thresholds in the order given and the scores at the format's precision",
+            _threshold_tables(), ["verif.output.Output.csv", "verif.output.Output.text", "verif.output.Standard._get_x_y"])
